@@ -126,6 +126,7 @@ func Load(repo string, harnessDir string) (*Interp, error) {
 	in := &Interp{Prog: prog, Pkg: spkgs[0], Fset: prog.Fset, intrinsics: map[string]intrinsic{}, Watch: map[string]bool{
 		"(*github.com/hslam/rpc.Call).done":   true,
 		"(*github.com/hslam/rpc.waiter).done": true,
+		"(*github.com/hslam/rpc.Conn).Close":  true,
 	}}
 	in.initOK = map[string]bool{
 		"github.com/hslam/rpc": true, "github.com/hslam/code": true, "github.com/hslam/buffer": true,
@@ -263,6 +264,20 @@ func (wk *worker) runPath(ex *Explorer, st *Stats) (w *World) {
 	w.schedule(g0)
 	if !w.ended {
 		st.Terminal++
+		if !g0.done {
+			// the harness's main goroutine is stuck: an event the environment was entitled to expect
+			// never happened, and the assertions after that point were not evaluated
+			desc := "?"
+			if g0.pend != nil {
+				desc = g0.pend.desc
+			}
+			v := &Violation{Kind: "assert", Label: "harness-main-blocked", Msg: "main harness goroutine blocked at " + desc}
+			if len(g0.frames) > 0 {
+				v.Site = w.siteOf(g0.frames[len(g0.frames)-1])
+				v.Sites = []string{g0.frames[len(g0.frames)-1].fn.String() + "@" + w.in.Fset.Position(g0.frames[len(g0.frames)-1].blk.Instrs[g0.frames[len(g0.frames)-1].pc].Pos()).String()}
+			}
+			w.addViolation(v)
+		}
 		w.terminal()
 	}
 	return w
